@@ -1,2 +1,11 @@
 import TlxVerif.Props.C04
-#print axioms TlxVerif.C04.fillLcp_length
+#print axioms TlxVerif.C04.proto_fixed_safe
+#print axioms TlxVerif.C04.proto_refs_alive
+#print axioms TlxVerif.C04.proto_counter_eq
+#print axioms TlxVerif.C04.proto_delete_at_zero
+#print axioms TlxVerif.C04.proto_quiescent_all_deleted
+#print axioms TlxVerif.C04.proto_destroy_count
+#print axioms TlxVerif.C04.proto_deleted_exactly_once
+#print axioms TlxVerif.C04.proto_orig_D24_no_subjob
+#print axioms TlxVerif.C04.proto_orig_D24_child_last
+#print axioms TlxVerif.C04.proto_orig_loop_uaf
